@@ -12,7 +12,7 @@
    (library semantics of list / ndarray / bitarray slicing); the model keeps the distinction
    list / slice because the code branches on it.  Exceptions are [RErr kind] with the kinds of
    harness/core.py (ERR_KINDS). *)
-From FCA Require Export Model.BinTable.
+From FCA Require Export Model.BinTable Model.FormalContext.
 
 Inductive res (A : Type) := ROk (a : A) | RErr (kind : nat).
 Arguments ROk {A} a. Arguments RErr {A} kind.
@@ -464,7 +464,11 @@ Inductive op :=
 | OCtxT (on an : list nat)
 | OCtxInvert (on an : list nat)
 | OCtxExtents (an : list nat)
-| OCtxEq (u : table).
+| OCtxEq (u : table)
+(* FormalContext.extension_i / intention_i / extension_monotone_i / intention_monotone_i
+   (kind 0 / 1 / 2 / other; Model/FormalContext.v) — whatever container the selections come in,
+   they denote the index list the harness reads off it *)
+| ODeriv (kind : nat) (arg : list nat) (base : option (list nat)).
 
 Definition run_op (b : backend) (t : table) (o : op) : res val :=
   match o with
@@ -491,4 +495,8 @@ Definition run_op (b : backend) (t : table) (o : op) : res val :=
   | OCtxInvert on an => ctx_invert b t on an
   | OCtxExtents an => ctx_extents b t an
   | OCtxEq u => ctx_eq b t u
+  | ODeriv 0 arg base => ROk (VNats (extension_i b t arg base))
+  | ODeriv 1 arg base => ROk (VNats (intention_i b t arg base))
+  | ODeriv 2 arg base => ROk (VNats (extension_monotone_i b t arg base))
+  | ODeriv _ arg base => ROk (VNats (intention_monotone_i b t arg base))
   end.
